@@ -13,6 +13,7 @@ type G struct {
 	Durable   bool
 	Bubble    bool
 	Frames    []string // function names, innermost first
+	Args      []string // argument text of each frame (as printed by the runtime)
 	CreatedBy string
 	Creator   int
 }
@@ -89,10 +90,13 @@ func ParseStacks(dump string) []G {
 				continue
 			}
 			fn := l
+			args := ""
 			if i := strings.LastIndexByte(fn, '('); i > 0 {
+				args = strings.TrimSuffix(fn[i+1:], ")")
 				fn = fn[:i]
 			}
 			g.Frames = append(g.Frames, fn)
+			g.Args = append(g.Args, args)
 		}
 		out = append(out, g)
 	}
@@ -155,4 +159,57 @@ func Describe(gs []G) string {
 		b.WriteString("; ")
 	}
 	return b.String()
+}
+
+// Owners attributes goroutines to the library object that created them
+// (transitively), across successive censuses of one run. Goroutine ids are
+// never reused, so the map only grows. Attribution is best effort: a goroutine
+// whose creator died before any census saw it stays unattributed, which can
+// only make the per-object leak check miss something, never raise a false
+// alarm (the end-of-run census is complete).
+type Owners struct {
+	byGID map[int]string
+	// Classify returns the owner of a goroutine from its own frames ("" = unknown).
+	Classify func(g *G) string
+}
+
+// NewOwners creates a tracker.
+func NewOwners(classify func(g *G) string) *Owners {
+	return &Owners{byGID: map[int]string{}, Classify: classify}
+}
+
+// Update takes a census and returns the goroutines of the bubble with their owners.
+func (o *Owners) Update(self int) (gs []G, owner map[int]string) {
+	gs = BubbleOthers(self, nil)
+	for changed := true; changed; {
+		changed = false
+		for i := range gs {
+			g := &gs[i]
+			if _, ok := o.byGID[g.ID]; ok {
+				continue
+			}
+			if own := o.Classify(g); own != "" {
+				o.byGID[g.ID] = own
+				changed = true
+				continue
+			}
+			if own, ok := o.byGID[g.Creator]; ok && own != "" {
+				o.byGID[g.ID] = own
+				changed = true
+			}
+		}
+	}
+	return gs, o.byGID
+}
+
+// Owned returns the live goroutines attributed to owner.
+func (o *Owners) Owned(self int, owner string) []G {
+	gs, m := o.Update(self)
+	var out []G
+	for _, g := range gs {
+		if m[g.ID] == owner {
+			out = append(out, g)
+		}
+	}
+	return out
 }
